@@ -59,6 +59,7 @@ DEFAULT = dict(
   delays=0.0,
   act_ball=True,  # allow joint transmissions on ball/free joints
   big_tree=0,  # force one chain of this many hinge dofs (inertia layout boundaries)
+  p_adhesion=0.0,  # geom adhesion (MuJoCo 3.13 passive contact adhesion); 0 draws no random numbers
 )
 
 
@@ -186,6 +187,9 @@ class Gen:
       attrs["solref"] = _f([rng.uniform(0.01, 0.05), rng.uniform(0.5, 1.5)])
     if rng.random() < 0.3:
       attrs["solimp"] = _f([rng.uniform(0.8, 0.95), rng.uniform(0.95, 0.99), rng.uniform(0.0005, 0.005), 0.5, 2])
+    if P.get("p_adhesion") and rng.random() < P["p_adhesion"]:
+      attrs["adhesion"] = _f(rng.uniform(0.5, 20))
+      self.feat.add("adhesion")
 
   # ---------------------------------------------------------------- joints
   def joint_xml(self, body, jtype, idx):
